@@ -37,3 +37,14 @@ impl Graph {
         VType::B
     }
 }
+
+#[derive(Clone, Copy)]
+pub struct VData {
+    pub ty: VType,
+    pub phase: i64,
+}
+pub trait GraphLike {
+    fn degree(&self, v: V) -> usize;
+    fn vertex_data_opt(&self, v: V) -> Option<VData>;
+    fn vertex_type(&self, v: V) -> VType;
+}
